@@ -113,6 +113,47 @@ for kw in (RC2, Z3):
 #   unittests/test_c_revision_vs_c_representation.py and by random priors with gamma+ free
 #   (see DESIGN §6); F8 and F11 need a scheduled expiry and are demonstrated at triage time.
 
+# F17 fixed gamma values are not respected inside the minima sums
+def fixed_gamma():
+    import z3
+    import inference.c_revision as cr
+    from inference.conditional import Conditional
+    from pysmt.shortcuts import Bool, Symbol
+    from pysmt.typing import BOOL
+
+    def solve(csp, minimize_vars=None):  # as the original, minus the F15 crash on non-int decls
+        opt = z3.Optimize()
+        opt.set(priority="pareto")
+        opt.add(*cr._convert_csp_to_z3(csp))
+        for v in minimize_vars or []:
+            opt.minimize(z3.Int(v))
+        if opt.check() == z3.sat:
+            m = opt.model()
+            return {d.name(): m[d].as_long() for d in m.decls() if z3.is_int_value(m[d])}
+        return None
+
+    cr.solve_and_get_model = solve
+    sig = ["a", "b", "c"]
+    ranks = {"000": 1, "001": 0, "010": 2, "011": 0, "100": 0, "101": 0, "110": 0, "111": 1}
+    conds = []
+    for i, (B, A) in enumerate([("c", "a"), ("b", "!c")], start=1):
+        c = Conditional(parse_formula(B), parse_formula(A), "(%s|%s)" % (B, A))
+        c.index = i
+        conds.append(c)
+    model = cr.c_revision(PreOCF.init_custom(dict(ranks), None, sig), conds, gamma_plus_zero=True, fixed_gamma_minus={1: 6})
+    ev = lambda f, w: f.substitute({Symbol(k, BOOL): Bool(b == "1") for k, b in zip(sig, w)}).simplify().is_true()
+    new = {}
+    for w, r in ranks.items():
+        for c in conds:
+            if ev(c.make_A_then_B(), w):
+                r += model.get("gamma+_%d" % c.index, 0)
+            elif ev(c.make_A_then_not_B(), w):
+                r += model.get("gamma-_%d" % c.index, 0)
+        new[w] = r
+    post = PreOCF.init_custom(new, None, sig)
+    return [post.conditional_acceptance(c) for c in conds]
+show("F17", "c_revision with gamma-_1 fixed to 6: acceptance of (c|a),(b|!c)", attempt(fixed_gamma), [True, True])
+
 # F16 format dispatch
 d = tempfile.mkdtemp()
 o = PreOCF.init_system_z(birds)
